@@ -32,8 +32,13 @@ def _valid_pattern(p, vs):
     if _BAD_KINDS is None:
         _BAD_KINDS = {z3.Z3_OP_ITE, z3.Z3_OP_AND, z3.Z3_OP_OR, z3.Z3_OP_NOT, z3.Z3_OP_EQ, z3.Z3_OP_LE, z3.Z3_OP_LT, z3.Z3_OP_GE,
                       z3.Z3_OP_GT, z3.Z3_OP_IMPLIES, z3.Z3_OP_DISTINCT, z3.Z3_OP_TRUE, z3.Z3_OP_FALSE}
-    terms = p.children() if isinstance(p, z3.PatternRef) else None
-    if isinstance(p, z3.PatternRef): return True
+    if isinstance(p, z3.PatternRef):
+        try: kids = [p.arg(i) for i in range(p.num_args())]
+        except Exception: kids = p.children()
+        seen_all = set()
+        for kchild in kids:
+            if not _valid_pattern(kchild, []): return False
+        return True
     if not z3.is_app(p) or p.decl().kind() != z3.Z3_OP_UNINTERPRETED or p.num_args() == 0: return False
     seen = set()
     def walk(t):
@@ -65,9 +70,12 @@ class Unsupported(Exception):
 # --------------------------------------------------------------------------- values
 class ArrVal:
     """immutable content of an array cell: symbolic shape + element function (+ algebraic tag)"""
-    __slots__ = ('shape', 'elem', 'sort', 'tag', 'islist')
-    def __init__(self, shape, elem, sort, tag=None, islist=False):
+    __slots__ = ('shape', 'elem', 'sort', 'tag', 'islist', 'vecs')
+    def __init__(self, shape, elem, sort, tag=None, islist=False, vecs=None):
         self.shape, self.elem, self.sort, self.tag, self.islist = tuple(shape), elem, sort, tag, islist
+        # vector-level view (DESIGN 3.2 algebraic layer): for 2-D arrays (axis, fn) with fn(i) the Vec term of the i-th slice along
+        # `axis` (axis 0: rows are vectors); for 1-D arrays (coef, term): the array is coef * term.  Always consistent with elem.
+        self.vecs = vecs
     @property
     def ndim(self): return len(self.shape)
 
@@ -223,14 +231,19 @@ class LoopContract:
     def __init__(self, inv, modifies=(), ghost=None, decreases=None, unroll=None, keep=(), hints=None):
         self.inv, self.modifies, self.ghost, self.decreases, self.unroll = inv, tuple(modifies), ghost or {}, decreases, unroll
         self.keep = tuple(keep)
+        self.types = {}               # name / 'self.attr' -> z3 sort: havoc sort override (e.g. a local that starts as int 0 and becomes a float)
+        self.const_ghost = set()      # ghost names that are loop constants (snapshot at entry, never havocked)
         self.hints = hints      # hints(I, Fpre, Fpost, k, ghost_pre, ghost_post) -> [(label, formula)]: proved in order, then assumed (like `assert`)
 
 
 class FuncContract:
     """modular contract: requires(I, args) -> list of (label, formula); ensures(I, args, result, old) -> list of (label, formula)
     result_shape(I, args) -> fresh result value constructor; modifies: list of arg names whose array cells are havocked"""
-    def __init__(self, requires=None, ensures=None, make_result=None, modifies=()):
+    def __init__(self, requires=None, ensures=None, make_result=None, modifies=(), modifies_self=()):
         self.requires, self.ensures, self.make_result, self.modifies = requires, ensures, make_result, tuple(modifies)
+        # attributes of `self` the callee may write: name or (name, ('vec', axis)); havocked at the call, `old` (heap snapshot) is passed to ensures
+        self.modifies_self = tuple(modifies_self)
+        self.assign_self = None       # optional: assign_self(I, F, old) -> {attr: value} set directly (exact post-values of scalars)
 
 
 # --------------------------------------------------------------------------- interpreter state (one path)
@@ -282,10 +295,23 @@ class Interp:
         r = ObjRef(f"o{self.st.nfresh}")
         self.st.heap[r.id] = ObjVal(cls, dict(attrs or {}))
         return r
-    def fresh_arr(self, name, shape, sort=None, islist=False):
+    def fresh_arr(self, name, shape, sort=None, islist=False, layout=None):
         sort = z3.RealSort() if sort is None else sort
+        if layout is not None:
+            return self.new_arr(self.fresh_vec_arrval(name, shape, layout))
         f = self.fresh_fn(name, *([z3.IntSort()] * len(shape) + [sort]))
         return self.new_arr(ArrVal(shape, lambda *ix: f(*[tz(i) for i in ix]), sort, ('base', f), islist))
+    def fresh_vec_arrval(self, name, shape, layout):
+        """2-D real array represented through its row (layout 0) or column (layout 1) vectors; 1-D: a single Vec"""
+        from . import veclayer as V
+        if len(shape) == 1:
+            self.st.nfresh += 1
+            v = z3.Const(f"{name}!{self.st.nfresh}", V.Vec)
+            return ArrVal(shape, lambda c: V.comp(v, tz(c)), z3.RealSort(), ('base', v), False, (1, v))
+        f = self.fresh_fn(name, z3.IntSort(), V.Vec)
+        if layout == 0: elem = lambda i, c: V.comp(f(tz(i)), tz(c))
+        else: elem = lambda i, c: V.comp(f(tz(c)), tz(i))
+        return ArrVal(shape, elem, z3.RealSort(), ('base', f), False, (layout, lambda i: f(tz(i))))
     def A(self, ref):
         """content of an array reference"""
         if isinstance(ref, ArrVal): return ref
@@ -622,7 +648,7 @@ class Interp:
         if op is ast.Sub: return a - b
         if op is ast.Mult: return a * b
         if op is ast.Div:
-            self.ob(f"div-nonzero:{ast.unparse(node) if node is not None else ''}", b != 0, kind='safety')
+            # numpy/float division by zero is not an exception (inf/nan + warning); over the reals x/0 is left unspecified
             return to_real(a) / to_real(b)
         if op is ast.FloorDiv:
             if bothint:
@@ -759,11 +785,27 @@ class Interp:
             for label, g in fc.requires(self, F):
                 self.ob(f"pre-at-call:{fn.qual.split('.')[-1]}:{label}", g, kind='pre')
         old = {}
+        if fc.modifies_self:
+            old['$heap'] = self.snapshot()
+            me = F['self']; o = self.O(me)
+            for m in fc.modifies_self:
+                typ = None
+                if isinstance(m, tuple): m, typ = m
+                if m not in o.attrs: continue
+                cur = o.attrs[m]
+                if isinstance(cur, ArrRef) and typ is not None and typ[0] == 'vec':
+                    o.attrs[m] = self.new_arr(self.fresh_vec_arrval(m + '_post', self.A(cur).shape, typ[1]))
+                elif isinstance(cur, ArrRef):
+                    o.attrs[m] = self.havoc_value(self.new_arr(self.A(cur)), m + '_post', False)
+                else:
+                    o.attrs[m] = self.havoc_value(cur, m + '_post', False)
         for m in fc.modifies:
             old[m] = self.A(F[m])
             a = old[m]
             f = self.fresh_fn(m + '_post', *([z3.IntSort()] * a.ndim + [a.sort]))
             self.st.heap[F[m].id] = ArrVal(a.shape, (lambda f: lambda *ix: f(*[tz(i) for i in ix]))(f), a.sort)
+        if fc.assign_self:
+            for k_, v_ in fc.assign_self(self, F, old).items(): self.O(F['self']).attrs[k_] = v_
         res = fc.make_result(self, F) if fc.make_result else None
         if fc.ensures:
             for label, g in fc.ensures(self, F, res, old): self.assume(g)
@@ -843,7 +885,7 @@ class Interp:
         if isinstance(cur, ArrRef) and isinstance(t, (ast.Name, ast.Attribute)):
             # in-place on the array cell
             r = self.binop(type(s.op), cur, v, s)
-            self.st.heap[cur.id] = ArrVal(self.A(cur).shape, self.A(r).elem, self.A(r).sort, self.A(r).tag, self.A(cur).islist)
+            self.st.heap[cur.id] = ArrVal(self.A(cur).shape, self.A(r).elem, self.A(r).sort, self.A(r).tag, self.A(cur).islist, self.A(r).vecs)
             self.event('inplace', cur.id)
             return
         if isinstance(cur, list) and isinstance(s.op, ast.Add):
@@ -928,6 +970,9 @@ class Interp:
             return
         if isinstance(it, RangeV):
             return self.cut_loop(s, F, it)
+        if isinstance(it, ArrRef) and isinstance(s.target, ast.Name):
+            # for c in <array of symbolic length>: cut like `for k in range(len(a)): c = a[k]` (the array value is snapshotted, as numpy iterates the original buffer)
+            return self.cut_loop(s, F, RangeV(0, self.A(it).shape[0]), over=self.A(it))
         raise Unsupported(f"for over {type(it).__name__}")
     def s_While(self, s, F):
         key = (F['$qual'], self.loop_ordinal(F, s))
@@ -993,6 +1038,13 @@ class Interp:
                     if fn in ('np.fill_diagonal',) and n.args: target(n.args[0])
         return names, attrs
 
+    def inv_items(self, r):
+        """an invariant is a formula or a list of (label, formula)"""
+        if isinstance(r, (list, tuple)): return [(l, tz(f)) for l, f in r]
+        return [('', tz(r))]
+    def snapshot(self):
+        """pre-state of the heap (object attribute maps are copied; array values are immutable)"""
+        return {k: (ObjVal(v.cls, dict(v.attrs)) if isinstance(v, ObjVal) else v) for k, v in self.st.heap.items()}
     def havoc_value(self, v, name, shape_too):
         if isinstance(v, ArrRef):
             a = self.A(v)
@@ -1000,6 +1052,11 @@ class Interp:
             if shape_too:
                 shape = tuple(self.fresh(f"{name}_dim{k}", z3.IntSort()) for k in range(a.ndim))
                 for d in shape: self.st.pc.append(d >= 0)
+            if a.vecs is not None and a.sort == z3.RealSort():
+                nv = self.fresh_vec_arrval(name, shape, a.vecs[0] if a.ndim == 2 else 0)
+                if shape_too: return self.new_arr(nv)
+                self.st.heap[v.id] = nv
+                return v
             f = self.fresh_fn(name, *([z3.IntSort()] * a.ndim + [a.sort]))
             if shape_too:
                 return self.new_arr(ArrVal(shape, (lambda f: lambda *ix: f(*[tz(i) for i in ix]))(f), a.sort, ('base', f), a.islist))
@@ -1017,15 +1074,18 @@ class Interp:
             return self.havoc_value(r, name, True)
         return v   # None, strings, objects: left as is (contracts must not rely on them changing)
 
-    def cut_loop(self, s, F, rng):
+    def cut_loop(self, s, F, rng, over=None):
         qual = F['$qual']; k = self.loop_ordinal(F, s)
         lc = self.loop_contracts.get((qual, k))
         if lc is None: raise Unsupported(f"loop {qual}#{k} has no contract")
         self.under_contract.add(qual)
         short = qual.split('.')[-1]
         isfor = rng is not None
-        var = s.target.id if isfor else None
         if isfor and not isinstance(s.target, ast.Name): raise Unsupported("for target")
+        var = s.target.id if isfor else None
+        elemvar = None
+        if over is not None:
+            elemvar = var; var = f"$k{k}"
         lo = tz(rng.lo) if isfor else IntVal(0)
         hi = tz(rng.hi) if isfor else None
         names, attrs = self.written_in(s.body, F)
@@ -1033,6 +1093,7 @@ class Interp:
         attrs |= set(m[5:] for m in lc.modifies if m.startswith('self.'))
         names -= set(lc.keep)
         if var: names.discard(var)
+        if elemvar: names.discard(elemvar)
         # rebinding vs in-place
         rebound_names, rebound_attrs = set(), set()
         for node in s.body:
@@ -1048,20 +1109,30 @@ class Interp:
         ghost0 = {g: init(self, F) for g, (init, step) in lc.ghost.items()}
         # (1) init
         if isfor: F[var] = lo
-        self.ob(f"{short}/loop{k}-init", lc.inv(self, F, lo, ghost0), kind='loop-init')
+        for label, f_ in self.inv_items(lc.inv(self, F, lo, ghost0)):
+            self.ob(f"{short}/loop{k}-init" + (f":{label}" if label else ''), f_, kind='loop-init')
         c = self.choose(2, f"loop{k}")
         # havoc
         def havoc():
             for nme in sorted(names):
-                if nme in F: F[nme] = self.havoc_value(F[nme], nme, nme in rebound_names)
+                if nme in lc.types: F[nme] = self.fresh(nme, lc.types[nme])
+                elif nme in F: F[nme] = self.havoc_value(F[nme], nme, nme in rebound_names)
             if selfref is not None:
                 o = self.O(selfref)
                 for a in sorted(attrs):
-                    if a in o.attrs: o.attrs[a] = self.havoc_value(o.attrs[a], a, True)
+                    if 'self.' + a in lc.types and isinstance(lc.types['self.' + a], tuple):
+                        # ('vec', axis): keep/establish the vector-level representation of a 2-D real buffer
+                        cur_ = self.A(o.attrs[a])
+                        shp = tuple(self.fresh(f"{a}_dim{k_}", z3.IntSort()) for k_ in range(cur_.ndim))
+                        for d_ in shp: self.st.pc.append(d_ >= 0)
+                        o.attrs[a] = self.new_arr(self.fresh_vec_arrval(a, shp, lc.types['self.' + a][1]))
+                    elif 'self.' + a in lc.types: o.attrs[a] = self.fresh(a, lc.types['self.' + a])
+                    elif a in o.attrs: o.attrs[a] = self.havoc_value(o.attrs[a], a, True)
             g = {}
             for gname in lc.ghost:
                 v0 = ghost0[gname]
-                g[gname] = self.havoc_value(v0, 'ghost_' + gname, False) if not isinstance(v0, ArrRef) else self.havoc_value(self.new_arr(self.A(v0)), 'ghost_' + gname, False)
+                if gname in lc.const_ghost: g[gname] = v0
+                else: g[gname] = self.havoc_value(v0, 'ghost_' + gname, False) if not isinstance(v0, ArrRef) else self.havoc_value(self.new_arr(self.A(v0)), 'ghost_' + gname, False)
             return g
         if c == 0:
             # arbitrary iteration
@@ -1070,49 +1141,57 @@ class Interp:
             if isfor:
                 F[var] = i
                 self.st.pc += [i >= lo, i < hi]
+                if elemvar: F[elemvar] = over.elem(i) if over.ndim == 1 else self.subscript(self.new_arr(over), i)
             else:
                 self.st.pc.append(i >= 0)
-            self.st.pc.append(tz(lc.inv(self, F, i, g)))
+            for _, f_ in self.inv_items(lc.inv(self, F, i, g)): self.st.pc.append(tz(f_))
             if not isfor:
                 cnd = self.truth(self.ev(s.test, F))
                 self.st.pc.append(tz(cnd))
             if not self.feasible(): raise Infeasible()
             self.ob(f"{short}/loop{k}-canary", BoolVal(False), kind='canary')
             Fpre = dict(F)
-            heap_pre = dict(self.st.heap)
+            heap_pre = self.snapshot()
             dec0 = lc.decreases(self, F) if lc.decreases else None
             try:
                 try:
                     self.exec_block(s.body, F)
                 except ContinueEx:
                     pass
-                g2 = {gname: step(self, Fpre, F, g[gname], heap_pre) for gname, (init, step) in lc.ghost.items()}
+                g2 = {gname: (g[gname] if gname in lc.const_ghost else step(self, Fpre, F, g[gname], heap_pre)) for gname, (init, step) in lc.ghost.items()}
                 if isfor: F[var] = i + 1
                 if lc.hints:
                     for label, h in lc.hints(self, Fpre, F, i, g, g2):
                         self.ob(f"{short}/loop{k}-step-hint:{label}", h, kind='loop-step')
                         self.st.pc.append(tz(h))
-                self.ob(f"{short}/loop{k}-step", lc.inv(self, F, i + 1, g2), kind='loop-step')
+                for label, f_ in self.inv_items(lc.inv(self, F, i + 1, g2)):
+                    self.ob(f"{short}/loop{k}-step" + (f":{label}" if label else ''), f_, kind='loop-step')
                 if dec0 is not None:
                     d1 = lc.decreases(self, F)
                     self.ob(f"{short}/loop{k}-decreases", And(d1 < dec0, dec0 >= 0), kind='termination')
                 raise PathEnd()
             except BreakEx:
                 F['$ghost%d' % k] = g
+                self.last_ghost[(qual, k)] = g
                 return
+            except ReturnEx:
+                self.last_ghost[(qual, k)] = g
+                self.last_ghost[(qual, k, 'returned-inside')] = (i, Fpre)
+                raise
         else:
             g = havoc()
             if isfor:
                 end = If(hi > lo, hi, lo)
-                self.st.pc.append(tz(lc.inv(self, F, end, g)))
+                for _, f_ in self.inv_items(lc.inv(self, F, end, g)): self.st.pc.append(tz(f_))
                 F[var] = end - 1     # python leaves the last value; undefined if the loop did not run
             else:
                 i = self.fresh('iter', z3.IntSort()); self.st.pc.append(i >= 0)
-                self.st.pc.append(tz(lc.inv(self, F, i, g)))
+                for _, f_ in self.inv_items(lc.inv(self, F, i, g)): self.st.pc.append(tz(f_))
                 cnd = self.truth(self.ev(s.test, F))
                 self.st.pc.append(tz(Not(cnd)) if is_sym(cnd) else BoolVal(not cnd))
             if not self.feasible(): raise Infeasible()
             F['$ghost%d' % k] = g
+            self.last_ghost[(qual, k)] = g
             self.exec_block(s.orelse, F)
 
     # ----- driver
@@ -1124,6 +1203,7 @@ class Interp:
             prefix = work.pop()
             self.st = State(prefix)
             self.call_stack = []
+            self.last_ghost = {}
             try:
                 r = body_fn(self)
                 results.append(('ok', self.st, r))
